@@ -212,6 +212,12 @@ func streamEngine(t *testing.T, o *Out, p EngProfile) {
 			}
 			t.Fatalf("prepare: %v", err)
 		}
+		if env.hung {
+			// a check made while the configuration was loaded (one lookup per declared relation) did not return
+			id++
+			o.Emit("engine", fmt.Sprintf("warm%d", id), c.Payload(), "res=hang/none\tcalls=0\topl=0\tx_detail=a depth-2 check of a declared relation did not return while the configuration was loaded", true)
+			break
+		}
 		expandBefore := ""
 		if p.OtherNet {
 			// expand of the queried subject set in network A while network B is empty …
